@@ -8,6 +8,8 @@ Local Open Scope N_scope.
 Lemma xml_esc_table_expected :
   Consts.xml_esc_table =
     [(38, false, [38;97;109;112;59]); (60, false, [38;108;116;59]); (62, false, [38;103;116;59]);
+     (13, false, [38;35;120;68;59]);                                    (* CR: &#xD; (commit 6fdbff2) *)
+     (9, true, [38;35;120;57;59]); (10, true, [38;35;120;65;59]);       (* TAB, LF in attributes: &#x9; &#xA; (47fa563) *)
      (34, true, [38;113;117;111;116;59])].
 Proof. reflexivity. Qed.
 
@@ -16,17 +18,28 @@ Lemma xml_esc_byte_spec attr b :
     if b =? 38 then [38;97;109;112;59]
     else if b =? 60 then [38;108;116;59]
     else if b =? 62 then [38;103;116;59]
+    else if b =? 13 then [38;35;120;68;59]
+    else if (b =? 9) && attr then [38;35;120;57;59]
+    else if (b =? 10) && attr then [38;35;120;65;59]
     else if (b =? 34) && attr then [38;113;117;111;116;59]
     else [b].
 Proof.
   unfold xml_esc_byte. rewrite xml_esc_table_expected. cbn [esc_lookup].
-  rewrite (N.eqb_sym 38 b), (N.eqb_sym 60 b), (N.eqb_sym 62 b), (N.eqb_sym 34 b).
+  rewrite (N.eqb_sym 38 b), (N.eqb_sym 60 b), (N.eqb_sym 62 b), (N.eqb_sym 13 b), (N.eqb_sym 9 b),
+    (N.eqb_sym 10 b), (N.eqb_sym 34 b).
   destruct (b =? 38); [reflexivity|]. destruct (b =? 60); [reflexivity|].
-  destruct (b =? 62); [reflexivity|]. destruct (b =? 34); destruct attr; reflexivity.
+  destruct (b =? 62); [reflexivity|]. destruct (b =? 13); [reflexivity|].
+  destruct attr; cbn [andb negb]; rewrite ?andb_true_r, ?andb_false_r;
+    destruct (b =? 9); try reflexivity; destruct (b =? 10); try reflexivity; destruct (b =? 34); reflexivity.
 Qed.
 
+(* the lexer's white-space-only flag after printing: a byte that is printed as a reference clears it
+   (lyxml_parse_value: any ampersand sets ws = 0), so CR never counts, TAB and LF only in element content *)
+Definition ws_printed (attr : bool) (b : N) : bool :=
+  is_xmlws b && negb (b =? 13) && negb (attr && ((b =? 9) || (b =? 10))).
+
 (* ---------- shape of what ly_getutf8 accepts ---------- *)
-Definition plain (b : N) : Prop := b <> 34 /\ b <> 38 /\ b <> 60 /\ b <> 62.
+Definition plain (b : N) : Prop := b <> 34 /\ b <> 38 /\ b <> 60 /\ b <> 62 /\ b <> 13 /\ b <> 9 /\ b <> 10.
 
 Ltac spec_contra H := intros ->; vm_compute in H; discriminate H.
 Ltac plain_from H := unfold plain; repeat split; spec_contra H.
@@ -103,8 +116,8 @@ Lemma xml_esc_plain attr c : Forall plain c -> xml_esc attr c = c.
 Proof.
   induction 1 as [|b c Hb _ IH]; [reflexivity|].
   unfold xml_esc in *. cbn [flat_map]. rewrite IH, xml_esc_byte_spec.
-  destruct Hb as (H34 & H38 & H60 & H62).
-  apply N.eqb_neq in H34, H38, H60, H62. rewrite H34, H38, H60, H62. reflexivity.
+  destruct Hb as (H34 & H38 & H60 & H62 & H13 & H9 & H10).
+  apply N.eqb_neq in H34, H38, H60, H62, H13, H9, H10. rewrite H34, H38, H60, H62, H13, H9, H10. reflexivity.
 Qed.
 
 Lemma skipn_app_len {A} (c r : list A) : skipn (length c) (c ++ r) = r.
@@ -127,6 +140,16 @@ Proof. reflexivity. Qed.
 Lemma step_quot f endc r acc ws :
   xml_value_f (S f) endc (38 :: 113 :: 117 :: 111 :: 116 :: 59 :: r) acc ws = xml_value_f f endc r (acc ++ [34]) false.
 Proof. reflexivity. Qed.
+(* the hexadecimal character references the printer writes: &#xD; &#x9; &#xA; *)
+Lemma step_cr f endc r acc ws :
+  xml_value_f (S f) endc (38 :: 35 :: 120 :: 68 :: 59 :: r) acc ws = xml_value_f f endc r (acc ++ [13]) false.
+Proof. reflexivity. Qed.
+Lemma step_tab f endc r acc ws :
+  xml_value_f (S f) endc (38 :: 35 :: 120 :: 57 :: 59 :: r) acc ws = xml_value_f f endc r (acc ++ [9]) false.
+Proof. reflexivity. Qed.
+Lemma step_lf f endc r acc ws :
+  xml_value_f (S f) endc (38 :: 35 :: 120 :: 65 :: 59 :: r) acc ws = xml_value_f f endc r (acc ++ [10]) false.
+Proof. reflexivity. Qed.
 
 Lemma xml_value_roundtrip_f s :
   lexable s ->
@@ -135,7 +158,7 @@ Lemma xml_value_roundtrip_f s :
     starts_with cdata_hdr (endc :: rest) = false ->
     (length (xml_esc attr s) < fuel)%nat ->
     xml_value_f fuel endc (xml_esc attr s ++ endc :: rest) acc ws =
-      Ok (acc ++ s, endc :: rest, ws && forallb is_xmlws s).
+      Ok (acc ++ s, endc :: rest, ws && forallb (ws_printed attr) s).
 Proof.
   induction 1 as [|s cp u Hg Hlex IH]; intros attr endc rest fuel acc ws Hd Hcd Hf.
   - destruct fuel as [|f]; [cbn in Hf; lia|].
@@ -162,6 +185,17 @@ Proof.
       destruct (a =? 62) eqn:E62.
       { apply N.eqb_eq in E62; subst a. cbn [app length] in Hf |- *. rewrite step_gt.
         rewrite IH by (auto; lia). rewrite <- app_assoc, andb_false_r. reflexivity. }
+      destruct (a =? 13) eqn:E13.
+      { apply N.eqb_eq in E13; subst a. cbn [app length] in Hf |- *. rewrite step_cr.
+        rewrite IH by (auto; lia). rewrite <- app_assoc, andb_false_r. reflexivity. }
+      destruct ((a =? 9) && attr) eqn:E9.
+      { apply andb_true_iff in E9. destruct E9 as [E9 ->]. apply N.eqb_eq in E9; subst a.
+        cbn [app length] in Hf |- *. rewrite step_tab.
+        rewrite IH by (auto; lia). rewrite <- app_assoc, andb_false_r. reflexivity. }
+      destruct ((a =? 10) && attr) eqn:E10.
+      { apply andb_true_iff in E10. destruct E10 as [E10 ->]. apply N.eqb_eq in E10; subst a.
+        cbn [app length] in Hf |- *. rewrite step_lf.
+        rewrite IH by (auto; lia). rewrite <- app_assoc, andb_false_r. reflexivity. }
       destruct ((a =? 34) && attr) eqn:E34.
       { apply andb_true_iff in E34. destruct E34 as [E34 ->]. apply N.eqb_eq in E34; subst a.
         cbn [app length] in Hf |- *. rewrite step_quot.
@@ -174,11 +208,14 @@ Proof.
       rewrite Eend.
       specialize (Hind (xml_esc attr r ++ endc :: rest)). cbn [app] in Hind. rewrite Hind.
       cbn [skipn firstn]. rewrite IH by (auto; lia).
-      rewrite <- app_assoc, andb_assoc. reflexivity.
+      assert (Ews : ws_printed attr a = is_xmlws a).
+      { unfold ws_printed. rewrite E13. destruct attr; rewrite ?andb_true_r in E9, E10; cbn [andb negb orb];
+          rewrite ?E9, ?E10; cbn [andb negb orb]; rewrite ?andb_true_r; reflexivity. }
+      rewrite Ews, <- app_assoc, andb_assoc. reflexivity.
     + (* a plain (possibly multi-byte) character *)
       rewrite (xml_esc_plain attr c Hplain) in Hf |- *.
       destruct c as [|a c']; [congruence|]. cbn [hd] in Hws.
-      pose proof (Forall_inv Hplain) as (H34 & H38 & H60 & H62).
+      pose proof (Forall_inv Hplain) as (H34 & H38 & H60 & H62 & _).
       cbn [app xml_value_f].
       apply N.eqb_neq in H38. rewrite H38.
       rewrite cdata_hdr_not60 by exact H60.
@@ -189,12 +226,13 @@ Proof.
       change (a :: c' ++ xml_esc attr r ++ endc :: rest) with ((a :: c') ++ xml_esc attr r ++ endc :: rest).
       rewrite <- Hlen, skipn_app_len, firstn_app_len.
       rewrite IH by (auto; cbn [length] in Hf; lia).
-      rewrite <- app_assoc. cbn [app forallb]. rewrite Hws. rewrite ?andb_false_r; cbn [andb]; rewrite ?andb_false_r. reflexivity.
+      rewrite <- app_assoc. cbn [app forallb]. assert (Ews : ws_printed attr a = false) by (unfold ws_printed; rewrite Hws; reflexivity).
+      rewrite Ews, Hws. rewrite ?andb_false_r; cbn [andb]; rewrite ?andb_false_r. reflexivity.
 Qed.
 
 Theorem xml_value_roundtrip attr endc s rest :
   lexable s -> delim_ok attr endc -> starts_with cdata_hdr (endc :: rest) = false ->
-  xml_value endc (xml_esc attr s ++ endc :: rest) = Ok (s, endc :: rest, forallb is_xmlws s).
+  xml_value endc (xml_esc attr s ++ endc :: rest) = Ok (s, endc :: rest, forallb (ws_printed attr) s).
 Proof.
   intros Hs Hd Hc. unfold xml_value.
   rewrite (xml_value_roundtrip_f s Hs attr endc rest _ [] true Hd Hc).
@@ -225,15 +263,26 @@ Corollary xml_text_roundtrip_encoded attr endc cps rest :
   forallb getutf8_accepts_char cps = true -> delim_ok attr endc ->
   starts_with cdata_hdr (endc :: rest) = false ->
   let s := flat_map utf8_encode cps in
-  xml_value endc (xml_esc attr s ++ endc :: rest) = Ok (s, endc :: rest, forallb is_xmlws s).
+  xml_value endc (xml_esc attr s ++ endc :: rest) = Ok (s, endc :: rest, forallb (ws_printed attr) s).
 Proof. intros H Hd Hc s. apply xml_value_roundtrip; [apply lexable_encoded; exact H|exact Hd|exact Hc]. Qed.
 
-(* non-vacuity: a payload mixing every escape class, a 2-, 3- and 4-byte character *)
+(* non-vacuity: a payload mixing every escape class (CR, TAB, LF included), a 2-, 3- and 4-byte character *)
 Example xml_roundtrip_example :
-  let cps := [97; 38; 60; 62; 34; 39; 9; 10; 233; 8364; 128512; 93; 93; 62] in
+  let cps := [97; 38; 60; 62; 34; 39; 9; 10; 13; 10; 13; 233; 8364; 128512; 93; 93; 62; 13] in
   forallb getutf8_accepts_char cps = true /\
+  xml_esc true [97; 13; 9; 10; 98] = [97; 38;35;120;68;59; 38;35;120;57;59; 38;35;120;65;59; 98] /\
+  xml_esc false [97; 13; 9; 10; 98] = [97; 38;35;120;68;59; 9; 10; 98] /\
   xml_value 60 (xml_esc false (flat_map utf8_encode cps) ++ [60; 47; 97; 62]) =
     Ok (flat_map utf8_encode cps, [60; 47; 97; 62], false) /\
   xml_value 34 (xml_esc true (flat_map utf8_encode cps) ++ [34; 47; 62]) =
     Ok (flat_map utf8_encode cps, [34; 47; 62], false).
+Proof. vm_compute. repeat split. Qed.
+
+(* the white-space-only flag: TAB/LF/space content keeps it; a CR (printed as a reference) clears it, and so
+   do TAB and LF in an attribute value *)
+Example xml_roundtrip_ws_example :
+  xml_value 60 (xml_esc false [32; 9; 10] ++ [60]) = Ok ([32; 9; 10], [60], true) /\
+  xml_value 60 (xml_esc false [32; 13] ++ [60]) = Ok ([32; 13], [60], false) /\
+  xml_value 34 (xml_esc true [32; 9] ++ [34]) = Ok ([32; 9], [34], false) /\
+  xml_value 34 (xml_esc true [32; 32] ++ [34]) = Ok ([32; 32], [34], true).
 Proof. vm_compute. repeat split. Qed.
